@@ -68,6 +68,80 @@ fn expected_from(actual_val: &str, printed: &str, expect_fail: bool) -> Option<(
     Some((format!("[1,{},{},{}]", u1, u1, u1), format!("#1\n{}#2\n{}#3\n{}", seg2, seg2, seg2)))
 }
 
+
+/// CONSTRUCT CORPUS (reference-only: the real interpreter against itself, no Lean model involved): one or
+/// more lambdas per syntactic construct that `freeze` / `freeze_lvalue` has an arm for, including the
+/// constructs outside the core AST of the model (format strings with flags, operator / comparison /
+/// struct / or / and / literally patterns, update expressions, every-assignments, pop / remove / consume /
+/// swap, slices, dict literals with defaults, symbols, structs, nested freeze, annotations on
+/// declarations).  For each entry the harness builds
+///   frozen:   SETUP; h := freeze (LAMBDA); r1 := CALLS; MUTATE; r2 := CALLS; [r1, r2]
+///   unfrozen: SETUP; h :=        (LAMBDA); r1 := CALLS;         r2 := CALLS; [r1, r2]
+/// and requires the same value and the same output: the frozen code behaves like the unfrozen one
+/// (first half) and is not affected by the later reassignment of its free variables (second half).
+/// (name, setup, lambda, calls, mutate)
+const CONSTRUCTS: &[(&str, &str, &str, &[&str], &str)] = &[
+    ("literals", "o := 1", "\\x -> [null, 1, 18446744073709551616, 1.5, 2i, \"s\", 'c', B\"ab\", x]", &["1"], "o = 2"),
+    ("format-flags", "w := 12", "\\n -> [F\"{n #x}\", F\"{n #b}\", F\"{n #o}\", F\"{n #X}\", F\"{n + w}|{w #x}\", F\"{n:5}|{n:<5}|{n:05}\"]", &["255", "7"], "w = 99"),
+    ("format-nested", "w := \"q\"", "\\n -> F\"{n}{w}{[n, w]}{w $ w}{n #x}\"", &["10"], "w = \"z\""),
+    ("unary-operators", "o := 6", "\\x -> [~5, ~(0), ~x, -(3), -x, ~o, not x, not o]", &["4", "0"], "o = 0"),
+    ("unary-fold-big", "o := 1", "\\x -> [~18446744073709551616, -18446744073709551616, ~(-1), -(1/2), -(1.5), x]", &["1"], "o = 2"),
+    ("index-slice", "xs := [10, 20, 30, 40]; k := 1", "\\i -> [xs[i], xs[k], xs[i:], xs[:k], xs[k:i], xs[-1], xs[k:][0:1]]", &["2", "3"], "xs = [0]; k = 0"),
+    ("update-expression", "xs := [1, 2, 3]; k := 0", "\\v -> [xs{k = v}, xs{-1 = v}, xs]", &["9"], "xs = [7, 7, 7]; k = 2"),
+    ("chain-outer-operator", "op := +", "\\a, b -> [a op b, a op b op a, (op)(a, b)]", &["2, 3"], "op = *"),
+    ("chain-precedence", "f := \\a, b -> [a, b]; g := \\a, b -> [b, a]; f::precedence = 5; g::precedence = 4", "\\x -> [x f 2 g 3, x g 2 f 3]", &["1"], "f::precedence = 3"),
+    ("comparison-chain", "lo := 1; hi := 9", "\\x -> [lo < x < hi, lo <= x <= hi == hi, lo < x > hi, x == lo != hi]", &["5", "1", "10"], "lo = 100"),
+    ("and-or-coalesce", "t := 1; z := 0; n := null", "\\x -> [x and t, x or z, n coalesce x, x coalesce t, (x and z) or t]", &["0", "5", "null"], "t = 0; z = 9; n = 3"),
+    ("declare-annotated", "ty := int; o := 2", "\\x -> (y: ty = x + o; z: int = y * 2; y = y + 1; [y, z])", &["1", "5"], "ty = str; o = 50"),
+    ("declare-annotated-mismatch", "ty := str", "\\x -> (y: ty = x; y)", &["1", "\"s\""], "ty = int"),
+    ("every-assign", "o := 7", "\\n -> (xs := [1, 2, 3, 4]; every xs[1:3] = o; every xs[:1] += n; xs)", &["5"], "o = 0"),
+    ("pop-remove-consume-swap", "o := 1", "\\n -> (xs := [1, 2, 3, 4, 5]; a := pop xs; b := remove xs[o]; c := consume xs[0]; ys := [n, 8]; swap xs[1], ys[0]; [a, b, c, xs, ys])", &["6"], "o = 0"),
+    ("opassign-forms", "o := 3; f := \\a, b -> a * b", "\\n -> (x := n; x += o; x f= o; x .= (\\v -> v + o); xs := [1, 2]; xs append= o; xs[0] -= o; [x, xs])", &["2"], "o = 100; f = +"),
+    ("opassign-every", "o := 2", "\\n -> (xs := [1, 2, 3]; every xs[0:2] *= o; every xs[2:] += n; xs)", &["5"], "o = 9"),
+    ("call-splat", "xs := [1, 2]; f := \\a, b, c -> [a, b, c]", "\\n -> [f(...xs, n), f(n, ...xs), f(...[n, n, n])]", &["7"], "xs = [8, 9]; f = \\a, b, c -> 0"),
+    ("call-section", "k := 10; f := \\a, b -> a - b", "\\n -> [(f(_, k))(n), (f(k, _))(n), (_ - k)(n), (k - _)(n), (_[k - 9])([n, n + 1]), (_(n, k))(f)]", &["3"], "k = 0; f = +"),
+    ("list-splat-dict", "xs := [1, 2]; d := {1: 2}", "\\n -> [[0, ...xs, n], {n: xs, ...d}, {:n, 1: xs}, {n, 2}]", &["5"], "xs = []; d = {}"),
+    ("dict-default", "o := 4", "\\n -> (d := {:o, n: 1}; [d[n], d[99], d])", &["3"], "o = 0"),
+    ("sequence-if", "a := 1; b := 2", "\\x -> (y := x; if (y > a) (y = y + b) else (y = y - b); if (y == 0) (y = a); y)", &["5", "0", "2"], "a = 50; b = 60"),
+    ("for-all-clauses", "xs := [1, 2, 3]; d := {1: 10, 2: 20}; m := 2", "\\n -> [for (x <- xs; if x != m; y := x * n) yield y, sort(for (k, v <<- d) yield k + v + n), for (x <- xs) yield x: x * m, (for (x <- xs; y <- xs; if x < y) yield [x, y]), for (x <- xs) yield x into sum]", &["3"], "xs = [9]; d = {}; m = 0"),
+    ("for-yield-into", "xs := [3, 1, 2]; f := max", "\\n -> [for (x <- xs) yield x + n into f, for (x <- xs) yield x % 2: x into f, for (x <- xs) yield x into first, for (x <- xs) yield x into count]", &["1"], "xs = [0]; f = min"),
+    ("for-exec-break", "xs := [1, 2, 3, 4]; lim := 3", "\\n -> (acc := 0; r := for (x <- xs) (if (x == lim) break x * n; if (x == 1) continue; acc += x); [r, acc])", &["2"], "xs = []; lim = 0"),
+    ("while-loop", "lim := 3; st := 1", "\\n -> (i := 0; acc := []; while (i < lim) (i += st; if (i == n) continue; acc append= i); acc)", &["2", "9"], "lim = 0; st = 5"),
+    ("while-cond-declares", "k := 3", "\\n -> (c := 0; acc := []; while ((m := c; c += 1; m < k)) (acc append= m + n); acc)", &["10"], "k = 0"),
+    ("switch-literals", "a := 1; b := \"s\"", "\\x -> switch (x) case 1 -> [a, \"one\"] case \"s\" -> b case null -> 0 case [1, y] -> y case _ -> [x, a]", &["1", "\"s\"", "null", "[1, 7]", "5"], "a = 100; b = 0"),
+    ("switch-literally", "k := 5", "\\x -> switch (x) case literally k -> \"k\" case _ -> x", &["5", "6"], "k = 6"),
+    ("switch-operator-patterns", "o := 100", "\\x -> switch (x) case n + 1 -> [\"succ\", n, o] ", &["5", "0"], "o = 0"),
+    ("switch-operator-patterns-2", "o := 100", "\\x -> switch (x) case a * 2 + 1 -> [\"odd\", a] case a * 2 -> [\"even\", a, o]", &["7", "8"], "o = 0"),
+    ("switch-prefix-suffix-patterns", "o := 1", "\\x -> switch (x) case h .+ t -> [h, t, o] case _ -> \"e\"", &["[1, 2, 3]", "[]"], "o = 2"),
+    ("switch-snoc-pattern", "o := 1", "\\x -> switch (x) case i +. l -> [i, l, o] case _ -> \"e\"", &["[1, 2, 3]", "[]"], "o = 2"),
+    ("switch-negation-division-patterns", "o := 1", "\\x -> switch (x) case -n -> [n, o]", &["5", "-5"], "o = 2"),
+    ("switch-comparison-patterns", "lo := 1; hi := 9", "\\x -> switch (x) case 1 < _ < 9 -> [\"in\", lo] case a < b -> [a, b, hi] case _ -> \"out\"", &["5", "10", "[1, 2]", "[2, 1]"], "lo = 100"),
+    ("switch-type-patterns", "ty := int", "\\x -> switch (x) case n: ty -> [\"t\", n] case s: str -> [\"s\", s] case _ -> \"o\"", &["1", "\"a\"", "[1]"], "ty = list"),
+    ("switch-or-and-patterns", "o := 1", "\\x -> switch (x) case 1 or 2 -> \"a\" case (n: int) and (m: number) -> [n, m, o] case _ -> \"z\"", &["1", "2", "7", "\"s\""], "o = 2"),
+    ("switch-struct-pattern", "struct Pt(px, py); o := 1", "\\x -> switch (x) case Pt(a, b) -> [a, b, o] case _ -> \"n\"", &["Pt(1, 2)", "5"], "o = 2"),
+    ("struct-access", "struct Pt(px, py); o := Pt(1, 2)", "\\q -> [px(q), q[py], px(o), (q{px = 9})[px], Pt(3, 4)[py]]", &["Pt(5, 6)"], "o = Pt(0, 0)"),
+    ("struct-definition-inside", "o := 1", "\\n -> (struct Qt(qa, qb = n); q := Qt(o); [q[qa], q[qb], qb(Qt(1, 2))])", &["7"], "o = 5"),
+    ("declare-patterns", "o := [1, [2, 3]]", "\\x -> (a, [b, c] := o; d, ...e := x; n + 1 := 6; [a, b, c, d, e, n])", &["[7, 8, 9]"], "o = [0, [0, 0]]"),
+    ("assign-patterns", "o := 1", "\\x -> (a := 0; b := 0; a, b = x; a, b = [b, a + o]; [a, b])", &["[1, 2]"], "o = 100"),
+    ("try-patterns", "o := 2", "\\x -> [try (throw x) catch 1 -> \"one\" , try (try (throw x) catch 99 -> 0) catch e -> [e, o], try (throw [x, o]) catch a, b -> a + b, try x catch _ -> 0]", &["1", "5"], "o = 100"),
+    ("try-local-in-handler", "o := 10", "\\x -> (try (q := x + o; r := 10 // x; q + r) catch e -> q)", &["0", "2"], "o = 0"),
+    ("nested-lambdas", "o := 2", "\\x -> (add := \\a -> \\b -> a + b + o; inc := add(x); [inc(1), add(1)(1), (\\...r -> r)(x, o), (\\a, b = o -> a * b)(x)])", &["3"], "o = 100"),
+    ("lambda-defaults-annotations", "ty := int; dv := 5", "\\x -> (f := \\a: ty, b: ty = dv, ...c: list -> [a, b, c]; [f(x), f(x, 1), f(x, 1, 2, 3), try f(\"s\") catch _ -> \"E\"])", &["2"], "ty = str; dv = \"q\""),
+    ("recursive-local-function", "base := 1; fact := \\n -> 0 - n", "\\n -> (fact := \\k -> if (k <= 1) base else k * fact(k - 1); fact(n))", &["5", "1"], "base = 0"),
+    ("closure-counter", "step := 2", "\\n -> (c := 0; bump := \\ -> (c += step; c); [bump(), bump(), c + n])", &["1"], "step = 50"),
+    ("nested-freeze", "o := 1", "\\x -> (y := x; g := freeze \\ -> y + o; y = 5; [g(), y])", &["1"], "o = 100"),
+    ("nested-freeze-loop", "o := 0", "\\n -> (acc := 0; gs := []; for (i <- 1 to n) (acc += i; gs append= freeze \\ -> acc + o); for (g <- gs) yield g())", &["4"], "o = 100"),
+    ("nested-freeze-must-fail", "o := 0", "\\n -> (c := 0; try (h := freeze \\ -> (c = 1); h(); c) catch e -> \"refused\")", &["1"], "o = 1"),
+    ("literally-expression", "k := 3", "\\x -> (switch (x) case literally (k + 1) -> \"four\" case _ -> \"other\")", &["4", "3"], "k = 2"),
+    ("break-continue-return-throw", "lim := 2", "\\n -> (r := []; for (i <- 1 to 5) (if (i > lim + n) break; if (i == 1) continue; r append= i); if (n == 9) return \"nine\"; if (n == 8) throw \"eight\"; r)", &["1", "9", "8"], "lim = 0"),
+    ("symbols-and-strings", "o := \"x\"", "\\s -> [s $ o, o $* 2, s in \"xyz\", upper(s), [s, o] join \"-\"]", &["\"y\""], "o = \"q\""),
+    ("builtins-shadowed-later", "xs := [3, 1, 2]", "\\n -> [len(xs), sum(xs), sort(xs), max(xs) + n, xs map (_ + n), xs filter (_ > 1), xs fold +]", &["1"], "xs = []; len = \\x -> 0; sum = len; sort = len; max = len; map = \\a, b -> 0; filter = map; fold = map"),
+    ("operators-shadowed-later", "xs := [1, 2]", "\\n -> [n + 1, n - 1, n * 2, n // 2, n % 2, n == 1, n < 2, [n] ++ xs, n max 3, n min 3]", &["5"], "plus := +; + = -; - = plus; * = plus; == = <; ++ = \\a, b -> 0"),
+    ("comma-seq-and-tuples", "o := 9", "\\a, b -> (x := (a, b, o); y, z := b, a; [x, y, z])", &["1, 2"], "o = 0"),
+    ("assert-debug-vars", "o := 4", "\\n -> (v := [n, o]; w := v; w[0] = 0; [v, w, vars == vars])", &["1"], "o = 0"),
+    ("generators-ranges", "hi := 5; st := 2", "\\n -> [1 to hi, n til hi, 1 to hi by st, (n to hi) map (* st), iota(n) take 3]", &["2"], "hi = 0; st = 1"),
+];
+
 fn main() {
     let args = parse_args();
     install_quiet_panic_hook();
@@ -211,6 +285,26 @@ fn main() {
         rep.arm(&format!("handwritten:{}", key));
         let r = out.class();
         rep.judge(&format!("handwritten:{}", key), src, &r, expected, expected);
+    }
+
+    // construct corpus: frozen vs unfrozen, reference-only
+    for (name, setup, lambda, calls, mutate) in CONSTRUCTS {
+        let call_list = calls.iter().map(|a| format!("(try h({}) catch e -> \"E\")", a)).collect::<Vec<_>>().join(", ");
+        let frozen = format!("{}; h := freeze ({}); r1 := [{}]; {}; r2 := [{}]; [r1, r2]", setup, lambda, call_list, mutate, call_list);
+        let unfrozen = format!("{}; h := ({}); r1 := [{}]; r2 := [{}]; [r1, r2]", setup, lambda, call_list, call_list);
+        let (fo, fp, _) = run_rust(&frozen);
+        let (uo, up, _) = run_rust(&unfrozen);
+        rep.case(&frozen, true);
+        rep.arm(&format!("construct:{}", name));
+        let f_s = format!("{} out={}", fo.class(), hex(fp.as_bytes()));
+        let u_s = format!("{} out={}", uo.class(), hex(up.as_bytes()));
+        // the unfrozen program itself must evaluate (a corpus entry that raises as a whole is a typo here)
+        if std::env::var("CORPUS_DUMP").is_ok() {
+            eprintln!("{}\t{}", name, uo.detail());
+        }
+        let u_ok = matches!(uo, Outcome::Ok(_));
+        let expect = if u_ok { u_s.clone() } else { format!("corpus entry does not evaluate unfrozen: {}", uo.detail()) };
+        rep.judge(&format!("construct:{}", name), &format!("{}\nunfrozen: {}", frozen, unfrozen), &f_s, &expect, &expect);
     }
     rep.notes.push(format!("cases skipped because a step budget ran out: {}", skipped));
     rep.write(&args.out);
